@@ -30,6 +30,14 @@ CHECKS = {
          "All 1 812 states (year, month, count) 1950-01..2100-12 of the IERS automaton are replayed: table value, utc=True offset and read-back at 9 instants per state, overrides 0..60 per state, and Delta-T for all 60 012 months -2000..3000; the quantifier domain of the property is finite and covered completely.",
          "Trusts the IERS list of 27 insertion dates typed into the reference model.",
          "DESIGN.md 3/C10"),
+ "C03": (MC, "breadth-first search over operator histories on real Angle objects against exact-rational arithmetic (depth 2 full event set, depth 3 reduced), plus full Cartesian constructor lattices",
+         "Every (operator, plain/reflected/in-place form, operand type, operand) event sequence up to depth 2 from 15 initial angles (about 650 000 transitions, 59 000 distinct states) is executed on real Angle objects; each transition is compared with the exact rational result modulo 360 and both operands are checked bit-for-bit unchanged; all constructor forms over the magnitude and D x M x S lattices are covered completely.",
+         "Real-valued quantifier: holds on the stated alphabets (every constant/seam of the anchored code with +-1 ulp neighbours); exact arithmetic via fractions/decimal (80 digits for radians and non-integer powers).",
+         "DESIGN.md 3/C03"),
+ "C04": (EX, "exhaustive enumeration of a boundary lattice of values x {angle, RA} x {fancy, colon} x n_dec, strings parsed by an independent grammar; thorough adds every state of the C03 operator BFS",
+         "All ~8 400 lattice values (every whole second/minute/degree seam with +-1e-12 deg, +-1e-9 arcsec, +-half-unit offsets and +-1 ulp, both signs) are pushed through both tuple decompositions and all 56 string variants; the thorough tier repeats this on all ~59 000 states reachable by the C03 BFS.",
+         "Real-valued quantifier: lattice, not all floats; the string grammar and the rounding tolerance (half a unit of the requested decimal) are the harness's reading of the statement.",
+         "DESIGN.md 3/C04"),
 }
 
 NOT_YET = {}
